@@ -10,9 +10,22 @@
 (* Every filling is executed.  A participant's result is a function of its  *)
 (* own slots, so exhausting one participant's fillings exhausts histories;  *)
 (* agreement between participants follows from InvFunctionOfR1.             *)
+(*                                                                          *)
+(* Observation (outside the property: an honest participant keeps one       *)
+(* round-one slot per sender and hands part3 the map it handed part2): if   *)
+(* part3 is given a *different* map in which a sender's contribution comes  *)
+(* from a run with a higher threshold, together with that run's share,      *)
+(* part3 does not re-check commitment lengths, the summed commitment is     *)
+(* truncated to the first vector's length and the returned key package's    *)
+(* verifying share differs from the public package's entry.  With SameR1 =  *)
+(* FALSE and TB # T TLC finds that history (InvConsistent).  The slices     *)
+(* with differing thresholds therefore run with SameR1 = TRUE.              *)
 EXTENDS Frost, Json
 
-CONSTANTS Shape,          \* <<n, t>>
+CONSTANTS Shape,          \* <<n, t>> of run A
+          TB,             \* threshold of the concurrent run B (may differ from run A's)
+          SameR1,         \* TRUE: part3 is given the round-one map part2 was given (the API's
+                          \* documented obligation); FALSE: the map supplied again may differ
           Ids,            \* identifier set
           Who,            \* set of participants to put under test
           PolyA, PolyB,   \* id -> coefficient sequence (constant term first), per run
@@ -44,7 +57,7 @@ Part1 ==
   /\ LET run == RunOf(pc[2])
          i == IdOf(pc[2])
          f == Poly(run)[i]
-     IN ActDkg1(<<R1S(run), i>>, <<R1P(run), i>>, i, N, T, f[1], SubSeq(f, 2, Len(f)),
+     IN ActDkg1(<<R1S(run), i>>, <<R1P(run), i>>, i, N, IF run = "A" THEN T ELSE TB, f[1], SubSeq(f, 2, Len(f)),
                 IF run = "A" THEN KA ELSE KB, FALSE)
   /\ Go(IF pc[2] = 2 * N THEN <<"part2", 1>> ELSE <<"part1", pc[2] + 1>>)
   /\ UNCHANGED sc
@@ -69,6 +82,7 @@ Fill ==
        \E f2 \in [Ids \ {p} -> R1Choices], f3 \in [Ids \ {p} -> R1Choices] :
        \E g \in [Ids \ {p} -> UNION {R2Choices(s, p) : s \in Ids \ {p}}] :
           /\ \A s \in Ids \ {p} : g[s] \in R2Choices(s, p)
+          /\ SameR1 => f3 = f2
           /\ sc' = [p |-> p, f2 |-> f2, f3 |-> f3, g |-> g]
   /\ pc' = <<"recv2", 0>>
   /\ UNCHANGED fvars
@@ -133,6 +147,8 @@ InvAcceptedShares ==
 
 GenAccept == /\ \A s \in Ids \ {p} : sc.f2[s] # "none" /\ sc.f3[s] # "none"
              /\ \A s \in Ids \ {p} : sc.g[s] = <<sc.f3[s], p>>
+             \* a contribution of a run with another threshold has another commitment length
+             /\ \A s \in Ids \ {p} : (sc.f2[s] = "B" \/ sc.f3[s] = "B") => TB = T
 
 \* structurally valid histories always complete (no exception)
 InvGenSound == (pc[1] = "done" /\ "g" \in DOMAIN sc /\ GenAccept) => Completed
